@@ -228,6 +228,15 @@ def lifetime_probes():
     for nm_, ctor in (("positional", "VolumePump(d0.Setting + 1)"), ("device_id_kw", "VolumePump(device_id=d0.Setting + 1)"), ("wrapped_generic", "VolumePump(Device(ref_id=d0.Setting + 1))"), ("ref_id_kw", "VolumePump(ref_id=d0.Setting + 1)")):
         out.append((f"life:device_id_expr:{nm_}", HDR + f"pump = {ctor}\n" + dbody))
     out.append(("life:two_loops_seq", F + "    a = d0.Setting\n    for i in range(2):\n        p = a + i\n        d1.Setting = p\n    b = d2.Setting\n    for k in range(2):\n        q = b + k + a\n        d4.Setting = q\n    db.Setting = a + b + n\n\nf(d3.Setting)\nf(2)\n"))
+    # computed (non-constant) range bound / step held in a temporary of the for statement itself, with a body
+    # that needs temporaries of its own: the bound must survive the whole loop
+    # a global whose module-level initialisation stands below the functions that assign / read it and that is
+    # used only inside functions afterwards: it lives for the whole program, module-level temporaries of the
+    # main loop must not take its register
+    out.append(("life:global_init_below_functions", HDR + "def bump():\n    global cnt\n    cnt = cnt + 1\n\ndef show():\n    db.Setting = cnt\n\ncnt = 0\nfor i in range(3):\n    v = d0.Setting * 2 + 1\n    d1.Setting = v - i\n    bump()\n    show()\n    w = Stack(db)[0] + v\n    d2.Setting = w * 3\n    bump()\n    show()\n"))
+    out.append(("life:range_bound_computed", HDR + "n = db.Setting\nfor i in range(n * 2):\n    d0.Setting = i * 3 + 1\n    yield_()\n"))
+    out.append(("life:range_bound_step_computed", F + "    t = 0\n    for i in range(1, n * 2 + 1, 2):\n        w = i * 3 + t\n        t = w - i * 2\n        d0.Setting = t\n    db.Setting = t\n\nf(d3.Setting)\nf(2)\n"))
+    out.append(("life:range_bound_computed_nested", HDR + "n = d1.Setting\nfor i in range(n + 1):\n    for k in range(i * 2 + n):\n        d0.Setting = (i + 1) * (k + 2) - n\n    db.Setting = i * 5 + 1\n"))
     return out
 
 
@@ -243,6 +252,9 @@ def constness_probes():
     out.append(("const:var_clamp_main", HDR + "x = d0.Setting\nif x > 5:\n    x = 5\ndb.Setting = x\ny = 3\nif d1.Setting > 1:\n    y = 4\ndb.Mode = y\n"))
     out.append(("const:aug_after_const", HDR + "x = 5\nx += d0.Setting\ndb.Setting = x\nz = 2\nfor i in range(2):\n    z *= 3\ndb.Mode = z\n"))
     out.append(("const:global_set_in_function", HDR + "mode = 1\n\ndef toggle(v):\n    global mode\n    if v > 0:\n        mode = 2\n    db.Mode = mode\n\ntoggle(d0.Setting)\ndb.Setting = mode\ntoggle(d1.Setting)\ndb.On = mode\n"))
+    out.append(("const:global_aug_in_function", HDR + "count = 10\n\ndef tick():\n    global count\n    count += 3\n\ntick()\ntick()\ndb.Setting = count * 2\n"))
+    out.append(("const:global_aug_in_function_loop", HDR + "total = 0\nstep = 2\n\ndef accum(v):\n    global total, step\n    total += v\n    step *= 2\n    db.Mode = total - step\n\naccum(d0.Setting)\naccum(4)\ndb.Setting = total + step\n"))
+    out.append(("const:global_aug_sub_in_two_functions", HDR + "left = 8\n\ndef take():\n    global left\n    left -= 1\n    return left\n\ndef give(n):\n    global left\n    left += n\n\ndb.Setting = take()\ngive(d0.Setting)\ndb.Mode = take() + left\n"))
     out.append(("const:loop_flag", HDR + "found = 0\nfor i in range(3):\n    if Stack(d0)[i] > 4:\n        found = 1\ndb.Setting = found\n"))
     out.append(("const:if_false_else", HDR + "x = d0.Setting\nif False:\n    db.Setting = 1\nelse:\n    db.Setting = x + 2\nif 0:\n    db.Mode = 1\nelif x > 5:\n    db.Mode = 2\nelse:\n    db.Mode = 3\nif 1 > 2:\n    db.On = 1\nelse:\n    db.On = x\n"))
     out.append(("const:if_false_else_in_func", HDR + "def regulate(level):\n    if False:\n        d1.Setting = 0\n    elif level > 50:\n        d1.Setting = 1\n    else:\n        d1.Setting = 2\n\nwhile True:\n    yield_()\n    regulate(d0.Setting)\n    if 1 > 2:\n        d2.Setting = 7\n    else:\n        d2.Setting = 8\n"))
